@@ -6,7 +6,7 @@ import itertools
 REQUIRED = ["Swh.C20.toposort_perm", "Swh.C20.toposort_parents_first"]
 RULE = (
     "random DAGs of 0-60 revisions (linear chains, forks, octopus merges, several roots, disconnected "
-    "components, duplicated parent ids) given in random input permutations (thorough: all permutations up "
+    "components, duplicated parent ids; plus main-line histories of 1100-3000 (thorough: up to 10000) revisions with merged side branches) given in random input permutations (thorough: all permutations up "
     "to 7 nodes); non-trivial = at least one revision with >=1 parent; distinct by canonical JSON of the log"
 )
 ASSUMPTIONS = ["dict/deque/defaultdict behave as total maps / FIFO queue (checked by the exact-sequence correspondence)"]
@@ -40,9 +40,32 @@ def gen_dag(rng, n):
     return [(perm[i], [perm[p] for p in ps]) for i, ps in revs]
 
 
+def long_history(rng, n, order):
+    """a main line of n revisions with a short side branch merged every 97 revisions — the shape of
+    a real repository's log; sizes well beyond any recursion limit"""
+    revs = []
+    nxt = n
+    for i in range(n):
+        parents = [i - 1] if i else []
+        if i and i % 97 == 0:
+            side = nxt
+            nxt += 1
+            revs.append((side, [max(0, i - 40)]))
+            parents.append(side)
+        revs.append((i, parents))
+    if order == "git-log":
+        revs.reverse()
+    elif order == "shuffled":
+        rng.shuffle(revs)
+    return {"log": [{"id": a, "parents": b} for a, b in revs]}
+
+
 def generate(ctx):
     rng = ctx.rng
     cases = []
+    for n in ([1100, 3000] if ctx.tier == "quick" else [1100, 3000, 10000]):
+        for order in ("chronological", "git-log", "shuffled"):
+            cases.append(long_history(rng, n, order))
     for i in range(ctx.budget(400, 6000)):
         n = rng.choice([0, 1, 2, 3, 4, 5, 6, 7, 8, 10, 15, 25, 40, 60])
         dag = gen_dag(rng, n)
@@ -72,7 +95,13 @@ def check_cases(ctx, cases):
         ctx.count("n=%s" % (len(log) if len(log) < 10 else "10+"))
         ctx.count("max_parents=%d" % min(8, max([len(r["parents"]) for r in log] or [0])))
         inp = [{"id": idb(r["id"]), "parents": [idb(p) for p in r["parents"]], "extra": i} for i, r in enumerate(log)]
-        out = list(toposort(inp))
+        try:
+            out = list(toposort(inp))
+        except (Exception, RecursionError) as e:
+            ctx.fail(case, f"toposort raises {type(e).__name__} on a valid log of {len(log)} revisions", "raises:" + type(e).__name__)
+            impls.append(None)
+            reqs.append({"op": "ping"})
+            continue
         order = [int(r["id"].split(b"-")[1]) for r in out]
         impls.append(order)
         reqs.append({"op": "toposort", "log": log})
@@ -91,6 +120,8 @@ def check_cases(ctx, cases):
                     break
     res = ctx.model(reqs)
     for case, r, order in zip(cases, res, impls):
+        if order is None:
+            continue
         if "error" in r:
             if ctx.model_available:
                 ctx.disagree(case, "model driver error", model=r)
